@@ -528,6 +528,16 @@ func runCheck(repo, verifDir string, opts CheckOpts, overlay map[string][]byte, 
 	for _, v := range violations {
 		fmt.Println(v)
 	}
+	// thorough tier: the must-fail corpus of this property (seeded changes applied through an in-memory
+	// overlay) guards the generator: every one must raise a violation.  Recorded in the evidence and
+	// printed; it does not change the exit status (that is about the property, not about the generator).
+	var corpus map[string]any
+	if opts.Tier == "thorough" && overlay == nil && len(violations) == 0 {
+		corpus = runCorpus(repo, verifDir, prop)
+		fmt.Printf("%s: must-fail corpus: %v seeded changes, %v detected, %v outside the claimed scope, %v not applicable to this tree, missed: %v\n",
+			prop, corpus["total"], corpus["detected"], corpus["out_of_scope"], corpus["skipped"], corpus["missed"])
+		wall = time.Since(t0).Seconds()
+	}
 	if writeEvidence {
 		ev := Evidence{PropertyID: prop, Tier: opts.Tier, Seed: seedFromEnv(), Level: "proof", WallS: round3(wall), Violations: len(violations)}
 		ev.Coverage = map[string]any{
@@ -546,6 +556,9 @@ func runCheck(repo, verifDir string, opts CheckOpts, overlay map[string][]byte, 
 			"warnings":                 warnings,
 			"samples":                  samples,
 			"contract_files":           relFiles(P.Specs.Files),
+		}
+		if corpus != nil {
+			ev.Coverage["must_fail_corpus"] = corpus
 		}
 		ev.Assumptions = append([]string{
 			"the VC generator (go/ssa naive form -> SMT-LIB) and the SMT solvers are trusted",
